@@ -34,6 +34,7 @@ func init() {
 var c06Tails = [][]byte{nil, {0x00}, {0xff, 0xff, 0xff, 0xff, 0xff}, {0x30}, {0xc0, 0x00}}
 
 func c06Exec(frames []CFrame, seq []int, tail int, alone []string) *core.Finding {
+	resetGlobals()
 	var stream []byte
 	for _, i := range seq {
 		stream = append(stream, frames[i].B...)
